@@ -303,6 +303,41 @@ def trace_validate(ctx, module, cfg, trace_path, name, env=None, timeout=3000, h
     raise ToolError("trace validation %s: TLC failed: %s\n%s" % (name, res.error, res.out[-3000:]))
 
 
+def trace_validate_chunked(ctx, module, cfg, trace_path, name, boundary, max_events=150000, **kw):
+    """Like trace_validate, for long traces: cut at records for which boundary(rec) holds (points where the specification is
+    back in its initial condition) into pieces of at most about max_events records, one TLC run each.  Positions in the
+    result refer to the whole trace."""
+    with open(trace_path) as f:
+        lines = [l for l in f if l.strip()]
+    if len(lines) <= max_events:
+        return trace_validate(ctx, module, cfg, trace_path, name, **kw)
+    pieces, start = [], 0
+    last_b = 0
+    for i, l in enumerate(lines):
+        if i > start and boundary(json.loads(l)):
+            if i - start >= max_events:
+                cut = last_b if last_b > start else i
+                pieces.append((start, cut))
+                start = cut
+            last_b = i
+    pieces.append((start, len(lines)))
+    total = 0
+    res = None
+    for k, (a, b) in enumerate(pieces):
+        part = "%s.part%d" % (trace_path, k)
+        with open(part, "w") as f:
+            f.writelines(lines[a:b])
+        ok, info, res = trace_validate(ctx, module, cfg, part, "%s_%d" % (name, k), **kw)
+        os.remove(part)
+        if not ok:
+            if info["rejected_at"] is not None:
+                info["rejected_at"] += a
+            info["events"] = total
+            return False, info, res
+        total += info["events"]
+    return True, {"events": total, "rejected_at": None, "record": None, "invariant": None, "nonconforming": 0, "wall": 0, "pieces": len(pieces)}, res
+
+
 def read_ndjson(path):
     with open(path) as f:
         return [json.loads(l) for l in f if l.strip()]
